@@ -35,10 +35,27 @@ var (
 	sharedImp  types.Importer
 )
 
+// lockedImporter serialises imports: the gc importer shares one package map and is not safe for
+// concurrent first-time imports (the harness builds many packages in parallel with one importer;
+// C18, which is about concurrent builds, gives every builder its own importer instead).
+type lockedImporter struct {
+	mu  sync.Mutex
+	imp types.Importer
+}
+
+func (l *lockedImporter) Import(path string) (*types.Package, error) {
+	l.mu.Lock()
+	defer l.mu.Unlock()
+	return l.imp.Import(path)
+}
+
 func sharedImporter() (*token.FileSet, types.Importer) {
 	sharedOnce.Do(func() {
 		sharedFset = token.NewFileSet()
-		sharedImp = packages.NewImporter(sharedFset)
+		li := &lockedImporter{imp: packages.NewImporter(sharedFset)}
+		sharedImp = li
+		// warm up: a first package imports what the builtin type-info table needs
+		gogen.NewPackage("", "warmup", &gogen.Config{Fset: sharedFset, Importer: li})
 	})
 	return sharedFset, sharedImp
 }
